@@ -77,6 +77,12 @@ QueryVerdict(S, fs, R) ==
     \cup (IF ~Sound(S, fs, R) \/ ~Multiplicity(S, fs, R) \/ LimitOK(S, fs, R) THEN {}
           ELSE IF LimitOKG(S, fs, R, FALSE) THEN {"C12_Limit_OnlyDelegatedMissing"} ELSE {"C12_Limit"})
 
+\* C01, "filter contents are pure data": the statement / generated code the storage engine is given depends only on
+\* the shape of the filter (which fields are present), never on the values.  P is a set of <<shape, skeleton>> pairs
+\* observed while answering REQs, the skeleton being the statement with every literal replaced by a placeholder.
+StatementsAreData(P) == \A a, b \in P : a[1] = b[1] => a[2] = b[2]
+OffendingShapes(P) == {a[1] : a \in {x \in P : \E y \in P : x[1] = y[1] /\ x[2] # y[2]}}
+
 ----------------------------------------------------------------------------
 (* relations between two answers (C11) *)
 
